@@ -92,6 +92,44 @@ mod harness {
     int_le!(le_usize, usize, 8, 10);
     int_le!(le_isize, isize, 8, 10);
 
+    /// the raw-byte impl for `Discriminant<T>` (unsafe code, assumed by the Verus unit): feeds ALL bytes of the discriminant,
+    /// so two values feed equal bytes exactly when they are the same variant -- also when the discriminants differ only in
+    /// their high bits
+    #[repr(u64)]
+    #[derive(Clone, Copy)]
+    enum Wide { A = 1, B = 1 + (1u64 << 32), C = 1 + (1u64 << 63), D = 2 }
+    #[repr(i64)]
+    #[derive(Clone, Copy)]
+    enum WideNeg { A = -1, B = 0xFFFF_FFFF, C = 0 }
+    fn pick(i: u8) -> Wide { match i % 4 { 0 => Wide::A, 1 => Wide::B, 2 => Wide::C, _ => Wide::D } }
+    fn pickn(i: u8) -> WideNeg { match i % 3 { 0 => WideNeg::A, 1 => WideNeg::B, _ => WideNeg::C } }
+
+    #[kani::proof]
+    #[kani::unwind(12)]
+    fn discriminant_bytes_identify_the_variant() {
+        let (i, j): (u8, u8) = (kani::any(), kani::any());
+        kani::assume(i < 4 && j < 4);
+        let (a, b) = (pick(i), pick(j));
+        let (mut ra, mut rb) = (Rec::new(), Rec::new());
+        std::mem::discriminant(&a).stable_hash(&mut ra);
+        std::mem::discriminant(&b).stable_hash(&mut rb);
+        assert!(ra.n == std::mem::size_of::<std::mem::Discriminant<Wide>>() && rb.n == ra.n, "all bytes of the discriminant are fed");
+        assert!((ra.buf[0..8] == rb.buf[0..8]) == (i == j), "equal bytes exactly for the same variant");
+        let (k, l): (u8, u8) = (kani::any(), kani::any());
+        kani::assume(k < 3 && l < 3);
+        let (mut rc, mut rd) = (Rec::new(), Rec::new());
+        std::mem::discriminant(&pickn(k)).stable_hash(&mut rc);
+        std::mem::discriminant(&pickn(l)).stable_hash(&mut rd);
+        assert!((rc.buf[0..8] == rd.buf[0..8]) == (k == l), "equal bytes exactly for the same variant (signed repr)");
+        let (x, y): (Option<u8>, Option<u8>) = (kani::any(), kani::any());
+        let (mut re, mut rf) = (Rec::new(), Rec::new());
+        std::mem::discriminant(&x).stable_hash(&mut re);
+        std::mem::discriminant(&y).stable_hash(&mut rf);
+        assert!(re.n == rf.n && re.n <= 8);
+        assert!((re.buf[0..8] == rf.buf[0..8]) == (x.is_some() == y.is_some()), "Option: equal exactly for the same variant");
+        kani::cover!(i != j && k != l);
+    }
+
     #[kani::proof]
     #[kani::unwind(6)]
     fn bool_char_images() {
